@@ -45,6 +45,16 @@ fn names_in(e: &crate::lang::Expr, out: &mut Vec<String>) {
     }
 }
 
+fn has_add_sub(e: &crate::lang::Expr) -> bool {
+    use crate::lang::Expr::*;
+    match e {
+        Bin { l, op, r, .. } => *op == '+' || *op == '-' || has_add_sub(l) || has_add_sub(r),
+        Neg(x) | Paren(x) => has_add_sub(x),
+        ToCur { e, .. } => has_add_sub(e),
+        _ => false,
+    }
+}
+
 /// judge one line; returns true when it was judged
 #[allow(clippy::too_many_arguments)]
 pub fn judge_line(rep: &mut RunReport, ei: usize, prop: &str, stmt: &Stmt, text: &str, slot: &Slot, envm: &mut EnvModel, w: &World, env: &Env, t: i128) -> bool {
@@ -52,7 +62,12 @@ pub fn judge_line(rep: &mut RunReport, ei: usize, prop: &str, stmt: &Stmt, text:
     crate::model::CURRENT_YEAR.with(|c| c.set(crate::clock::utc_date(t).0));
     let uses_poisoned = |e: &crate::lang::Expr| -> bool { let mut v = Vec::new(); names_in(e, &mut v); v.iter().any(|n| envm.poisoned.contains(n)) };
     let mut shape = stmt_shape(stmt);
-    if let Stmt::Eval(e) | Stmt::Assign { e, .. } = stmt { if let Some(c) = crate::model::date_arith_class(e, &ctx) { shape = c; } }
+    crate::model::OPERAND_SCALE.with(|s| s.set(0.0));
+    if let Stmt::Eval(e) | Stmt::Assign { e, .. } = stmt {
+        if let Some(c) = crate::model::date_arith_class(e, &ctx) { shape = c; }
+        // only sums and differences cancel; products and quotients keep the plain relative tolerance
+        if has_add_sub(e) { let m = crate::model::operand_scale(e, &ctx); crate::model::OPERAND_SCALE.with(|s| s.set(m)); }
+    }
     let mismatch = |rep: &mut RunReport, what: &str, expected: String| {
         rep.violate("O-model", format!("{}:{}:{}", prop, what, shape), ei, format!("line {:?} [{}]: the model says {}, the calculator gave {} (simulated instant {})", text, shape, expected, slot.short(), crate::clock::fmt_instant(t)));
     };
@@ -100,6 +115,16 @@ pub fn judge_line(rep: &mut RunReport, ei: usize, prop: &str, stmt: &Stmt, text:
                         envm.poisoned.insert(key);
                     } else {
                         envm.poisoned.remove(&key);
+                        // the name now holds what the calculator computed (equal to the model's value within
+                        // the tolerance): later lines are judged against that, so that a rounding residue
+                        // (x - x = 1e-9) multiplied up later is not mistaken for a wrong binding
+                        let v = match (v, slot.val()) {
+                            (MVal::Num(_), Some(crate::obs::Val::Num { v: o, .. })) => MVal::Num(o.0),
+                            (MVal::Pct(_), Some(crate::obs::Val::Pct(o))) => MVal::Pct(o.0),
+                            (MVal::Money(_, c), Some(crate::obs::Val::Money { v: o, .. })) => MVal::Money(o.0, c),
+                            (MVal::Unit(_, f, i), Some(crate::obs::Val::Unit { v: o, .. })) => MVal::Unit(o.0, f, i),
+                            (v, _) => v,
+                        };
                         envm.vals.insert(key, v);
                     }
                     true
